@@ -96,7 +96,8 @@ def main():
     meta_out['breaks_property'] = ident
     meta_out['confirmed_by_harness_author'] = confirm or prev.get('confirmed_by_harness_author', {})
     runs = prev.get('checks_run', {})
-    runs.update({f'{c}:{tier}': r for c, r in results.items()})
+    sd = os.environ.get('VERIF_SEED')
+    runs.update({f'{c}:{tier}' + (f':seed{sd}' if sd else ''): r for c, r in results.items()})
     meta_out['checks_run'] = runs
     meta_out['repo_commit'] = subprocess.run('git -C /repo rev-parse --short HEAD', shell=True, stdout=subprocess.PIPE, text=True).stdout.strip()
     json.dump(meta_out, open(f'{out}/meta.json', 'w'), indent=1)
